@@ -283,15 +283,16 @@ def _median(c, case):
                 _prove_binary(c, f"{tag}:{list(idx)} majority", claim, list(xs.reshape(-1)), link, replay, kbase)
                 if len(c.violations) > vio0:
                     break  # one replayed witness per (shape, kernel)
-            # vacuity twins: the filter does something (K > 1), and both outputs are reachable
-            e0 = tuple(0 for _ in shape)
+            # vacuity twins: the filter does something (K > 1: some voxel's output can differ from that voxel's input)
             binc = [z3.Or(x == 0, x == 1) for x in xs.reshape(-1)] + link
-            o = out[e0]
-            isone = sc.toz(o) if (sc.isz(o) and z3.is_bool(o)) else sc.eq(o, 1)
+
+            def _isone(o):
+                return sc.toz(o) if (sc.isz(o) and z3.is_bool(o)) else sc.toz(sc.eq(o, 1))
+
             if K > 1:
-                c.witness(f"{tag}: output can differ from the input voxel", z3.Xor(sc.toz(isone), xs[e0] == 1), binc)
+                c.witness(f"{tag}: some output voxel can differ from its input voxel", z3.Or(*[z3.Xor(_isone(out[i]), xs[i] == 1) for i in np.ndindex(*shape)]), binc)
             else:
-                c.witness(f"{tag}: output 1 reachable", isone, binc)
+                c.witness(f"{tag}: output 1 reachable", _isone(out[tuple(0 for _ in shape)]), binc)
 
 
 # --------------------------------------------------------------------------------------------------- pillar: oracle
